@@ -186,7 +186,7 @@ pub fn check_memory(c: &ConsumingIovec<'_>, extra: &[&[u8]], who: &str, log: &mu
         match owning_iovec::verif::locate(ptr, s.len()) {
             Some((idx, off, _)) => {
                 if i == 0 {
-                    log.u64(idx);
+                    log.u64(norm_chunk(idx));
                     log.u64(off as u64);
                 }
             }
@@ -782,6 +782,20 @@ impl Run<'_> {
             }
         }
         let accepted = if rejected {
+            // What the decoder emitted before the error stays readable through
+            // its consumer; it must stay alive even once the arena lets go of
+            // its current chunk.
+            dec.consumer().arena().flush_cache();
+            if let Some(sp) = spare.as_mut() {
+                sp.flush_cache();
+            }
+            let c = dec.consumer();
+            if let Err((p, inv, d)) = check_memory(&c, &[wire], "decoder after a decoding error", log) {
+                vs.push(V { prop: p, inv, detail: d, at: usize::MAX });
+            }
+            let mut sink = Vec::new();
+            let _ = drain(dec.consumer(), 3, 0, &mut sink, stats);
+            stats.bump("probe.decoder_output_checked_after_error");
             drop(dec);
             false
         } else {
@@ -881,11 +895,11 @@ fn structured_wire(seed: u64, m1: usize, m2: usize) -> Vec<u8> {
 
 fn gen_short(rng: &mut Rng, ask: Ask, seed: u64, index: u64) -> Plan {
     let mut knobs = std::collections::BTreeMap::new();
-    let public = rng.chance(3, 10);
+    let public = !ask.tiny && rng.chance(3, 10);
     let (m1, m2) = if public {
         (252, 64008)
     } else {
-        match rng.below(10) {
+        match if ask.tiny { 2 + rng.below(8) } else { rng.below(10) } {
             0 => (3, 5),
             1 => (252, 64008),
             _ => (rng.range(1, 6), rng.range(1, 9)),
@@ -921,7 +935,7 @@ fn gen_short(rng: &mut Rng, ask: Ask, seed: u64, index: u64) -> Plan {
             }
             _ => {}
         }
-        knobs.insert("sweep".into(), rng.chance(1, 3) as u64);
+        knobs.insert("sweep".into(), (!ask.tiny && rng.chance(1, 3)) as u64);
     }
     let mut ops = Vec::new();
     // Alphabet for this run.
@@ -929,7 +943,7 @@ fn gen_short(rng: &mut Rng, ask: Ask, seed: u64, index: u64) -> Plan {
     let (roff, rlen) = region(class);
     let drains = rng.chance(8, 10);
     let arena = rng.chance(3, 10);
-    let nfeeds = if tiny { rng.range(0, 9) } else { rng.range(0, 8) };
+    let nfeeds = if ask.tiny { rng.range(0, 5) } else if tiny { rng.range(0, 9) } else { rng.range(0, 8) };
     // Length plan for production limits.
     let total_target: u64 = if tiny {
         0
@@ -1040,6 +1054,7 @@ impl World for CodecWorld {
     }
     fn execute(&self, plan: &Plan, stats: &mut Stats) -> Outcome {
         let mut log = LogHash::new();
+        start_run_chunk_numbering();
         let base = (ByteArena::num_live_chunks(), ByteArena::num_live_bytes(), owning_iovec::verif::live_totals());
         let mut run = Run {
             plan,
@@ -1118,7 +1133,11 @@ pub struct LongWorld;
 
 pub const LONG_KINDS: &[&str] = &["burst"];
 
-fn footprint_bound(largest_alloc: usize, objects: usize) -> usize {
+fn schedule_is_small(s: u64) -> bool {
+    s == 5
+}
+
+pub fn footprint_bound(largest_alloc: usize, objects: usize) -> usize {
     objects * 4 * (1usize << 20).max(largest_alloc.div_ceil(4096) * 4096)
 }
 
@@ -1134,14 +1153,14 @@ impl World for LongWorld {
     }
     fn runs(&self, ask: Ask) -> u64 {
         if ask.thorough {
-            192
+            384
         } else {
-            32
+            96
         }
     }
     fn components(&self) -> (Vec<&'static str>, Vec<&'static str>) {
         (
-            vec!["hcobs (public Encoder and Decoder, production limits)", "owning_iovec (arena growth, anchors, reclamation)"],
+            vec!["hcobs (public Encoder and Decoder, production limits; StreamReader for long logs)", "owning_iovec (arena growth, anchors, reclamation)"],
             vec!["std::io::Read argument of encode_read/decode_read (SimReader)", "caller buffers (immutable pool, per-call wire vector)"],
         )
     }
@@ -1154,13 +1173,30 @@ impl World for LongWorld {
         let mib = if ask.thorough { *rng.pick(&[64u64, 128, 256, 512]) } else { 64 };
         knobs.insert("keep_total_mib".into(), mib);
         knobs.insert("payload_class".into(), *rng.pick(&[4u64, 4, 0, 1, 3, 2]));
-        knobs.insert("schedule".into(), rng.below(5));
-        knobs.insert("methods".into(), rng.range(1, 15)); // bit set over borrow/copy/anchored/encode_read
-        knobs.insert("dec_methods".into(), rng.range(1, 7)); // bit set over copy/anchored/decode_read
+        // Stratified by run index so that every batch covers the piece
+        // schedules x arena ownership x input-method mixes that matter.
+        let lane = index / 4 * 3 + index % 4; // indices with index % 4 == 3 are reader logs
+        knobs.insert("schedule".into(), lane % 6);
+        let method_sets = [4u64, 15, 8, 5, 2, 1, 12, 3];
+        knobs.insert("methods".into(), method_sets[((lane / 12) % 8) as usize]);
+        knobs.insert("dec_methods".into(), [2u64, 7, 1, 4][((lane / 3) % 4) as usize]);
         // C10's footprint bound needs the consumer to keep up.
         knobs.insert("drain_policy".into(), if ask.prop == "C10" { 0 } else { rng.below(3) });
         knobs.insert("eintr".into(), rng.below(2));
         knobs.insert("sched_seed".into(), rng.next() >> 1);
+        // Anchored input read into a separate arena (a reader that owns its buffers).
+        knobs.insert("separate_arena".into(), (index / 4 / 2) % 2);
+        if index % 4 == 3 {
+            // A long log read back through StreamReader.
+            knobs.insert("reader_log".into(), 1);
+            knobs.insert("keep_total_mib".into(), if ask.thorough { *rng.pick(&[32u64, 64, 128]) } else { 16 });
+            knobs.insert("record_class".into(), rng.below(6));
+            knobs.insert("block".into(), *rng.pick(&[0u64, 7, 4096, 65536, 65536, 0]));
+            return Plan { world: "longrun", mode: "long-log".into(), seed, index, knobs, ops: Vec::new() };
+        }
+        if schedule_is_small(knobs["schedule"]) {
+            knobs.insert("keep_total_mib".into(), if ask.thorough { 64 } else { 24 });
+        }
         Plan { world: "longrun", mode: "long".into(), seed, index, knobs, ops: Vec::new() }
     }
     fn execute(&self, plan: &Plan, stats: &mut Stats) -> Outcome {
@@ -1169,7 +1205,11 @@ impl World for LongWorld {
         let mut vs: Vec<V> = Vec::new();
         let mut calls = 0u64;
         let result = std::panic::catch_unwind(AssertUnwindSafe(|| {
-            long_run(plan, stats, &mut log, &mut vs, base.1, &mut calls);
+            if plan.knob("reader_log") != 0 {
+                crate::w_stream::long_log(plan, stats, &mut log, &mut vs, base.1, &mut calls);
+            } else {
+                long_run(plan, stats, &mut log, &mut vs, base.1, &mut calls);
+            }
         }));
         let mut violations: Vec<Violation> = vs
             .into_iter()
@@ -1207,6 +1247,9 @@ fn long_run(plan: &Plan, stats: &mut Stats, log: &mut LogHash, vs: &mut Vec<V>, 
     let mut rng = Rng::new(plan.knob("sched_seed") ^ 0x10c6);
     let mut enc: hcobs::Encoder<'static> = hcobs::Encoder::new();
     let mut dec: hcobs::Decoder<'_> = hcobs::Decoder::new();
+    let separate = plan.knob("separate_arena") != 0;
+    let mut reader_arena = ByteArena::new();
+    let mut reader_arena2 = ByteArena::new();
     let mut fed = 0usize;
     let mut expected: std::collections::VecDeque<&'static [u8]> = Default::default();
     let mut expected_off = 0usize; // offset into expected.front()
@@ -1250,7 +1293,8 @@ fn long_run(plan: &Plan, stats: &mut Stats, log: &mut LogHash, vs: &mut Vec<V>, 
                     }
                     rng.range(60_000, 70_000) as usize
                 }
-                _ => *rng.pick(&[64008usize, 64008, 64007, 64009, 252, 4096]),
+                4 => *rng.pick(&[64008usize, 64008, 64007, 64009, 252, 4096]),
+                _ => *rng.pick(&[32usize, 32, 48, 100]),
             }
         }
         .min(total - fed)
@@ -1273,7 +1317,12 @@ fn long_run(plan: &Plan, stats: &mut Stats, log: &mut LogHash, vs: &mut Vec<V>, 
                 largest_alloc = largest_alloc.max(len);
                 let att = NonZeroUsize::new(usize::MAX).unwrap();
                 let n = if m == 2 {
-                    let s = enc.read_n(&mut reader, len, att).expect("harness: fault-free reader failed");
+                    let s = if separate {
+                        reader_arena.read_n(&mut reader, len, att)
+                    } else {
+                        enc.read_n(&mut reader, len, att)
+                    }
+                    .expect("harness: fault-free reader failed");
                     let n = s.slice().len();
                     enc.encode_anchored(s);
                     n
@@ -1334,7 +1383,12 @@ fn long_run(plan: &Plan, stats: &mut Stats, log: &mut LogHash, vs: &mut Vec<V>, 
                     let att = NonZeroUsize::new(usize::MAX).unwrap();
                     largest_alloc = largest_alloc.max(wire_piece.len());
                     if dm == 1 {
-                        let s = dec.read_n(&mut reader, wire_piece.len(), att).expect("harness: fault-free reader failed");
+                        let s = if separate {
+                            reader_arena2.read_n(&mut reader, wire_piece.len(), att)
+                        } else {
+                            dec.read_n(&mut reader, wire_piece.len(), att)
+                        }
+                        .expect("harness: fault-free reader failed");
                         dec.decode_anchored(s).is_ok()
                     } else {
                         dec.decode_read(&mut reader, wire_piece.len(), att).is_ok()
@@ -1384,8 +1438,9 @@ fn long_run(plan: &Plan, stats: &mut Stats, log: &mut LogHash, vs: &mut Vec<V>, 
         // Footprint.
         let live = ByteArena::num_live_bytes().saturating_sub(base_bytes);
         max_live = max_live.max(live);
-        if policy == 0 && live > footprint_bound(largest_alloc, 2) {
-            push_v(vs, "C10", "C10.stream_footprint", format!("after {} bytes streamed with full drains: {} live arena bytes, bound {}", fed, live, footprint_bound(largest_alloc, 2)));
+        let objects = if separate { 4 } else { 2 };
+        if policy == 0 && live > footprint_bound(largest_alloc, objects) {
+            push_v(vs, "C10", "C10.stream_footprint", format!("after {} bytes streamed with full drains: {} live arena bytes, bound {}", fed, live, footprint_bound(largest_alloc, objects)));
         }
     }
     // Finish both ends.
@@ -1420,7 +1475,7 @@ fn long_run(plan: &Plan, stats: &mut Stats, log: &mut LogHash, vs: &mut Vec<V>, 
     stats.counters.entry("probe.max_encoder_lag_bytes".into()).and_modify(|v| *v = (*v).max(max_lag as u64)).or_insert(max_lag as u64);
     stats.counters.entry("probe.max_live_arena_bytes".into()).and_modify(|v| *v = (*v).max(max_live as u64)).or_insert(max_live as u64);
     let mut sig = LogHash::new();
-    for k in ["payload_class", "schedule", "methods", "dec_methods", "drain_policy", "eintr", "keep_total_mib"] {
+    for k in ["payload_class", "schedule", "methods", "dec_methods", "drain_policy", "eintr", "keep_total_mib", "separate_arena"] {
         sig.u64(plan.knob(k));
     }
     stats.state(sig.0);
